@@ -84,9 +84,9 @@ partial def pNode : P Node := do
   let raw ← pHex; let pre ← pHex; let suf ← pHex; let noesc ← pBool
   let ctxVar ← pHex; let ctxSrc ← pHex; let ctxOK ← pHex; let ctxSrcStatic ← pBool; let ctxIns ← pHex
   let cntrVar ← pHex; let cntrInit ← pInt; let cntrInitF ← pBool; let cntrOp ← pNat; let cntrOpArg ← pInt
-  let condL ← pHex; let condR ← pHex; let _condOKL ← pHex; let _condOKR ← pHex
+  let condL ← pHex; let condR ← pHex; let condOKL ← pHex; let condOKR ← pHex
   let condStaticL ← pBool; let condStaticR ← pBool; let condOp ← pNat; let condHlp ← pHex
-  let condHlpArg ← pArgs; let _condIns ← pHex; let condLC ← pNat
+  let condHlpArg ← pArgs; let condIns ← pHex; let condLC ← pNat
   let loopKey ← pHex; let loopVal ← pHex; let loopSrc ← pHex; let loopCnt ← pHex; let loopCntInit ← pHex
   let loopCntStatic ← pBool; let loopCntOp ← pNat; let loopCondOp ← pNat; let loopLim ← pHex
   let loopLimStatic ← pBool; let loopSep ← pHex; let loopBrkD ← pInt
@@ -101,7 +101,7 @@ partial def pNode : P Node := do
     | 0 => .raw raw
     | 1 => .tpl raw mods noesc pre suf
     | 2 => .cond cond child
-    | 3 => .condOK
+    | 3 => .condOK { varV := condOKL, varOK := condOKR, ins := condIns, cd := cond } child
     | 4 => .condTrue child
     | 5 => .condFalse child
     | 6 => .rloop { key := loopKey, val := loopVal, src := loopSrc, sep := loopSep } child
@@ -176,7 +176,7 @@ def errName : Err → String
   | .condHlpNotFound => "condhlp" | .senseless => "senseless" | .wrongLoopLim => "wronglim"
   | .wrongLoopCond => "wrongcond" | .wrongLoopOp => "wrongop" | .unknownCtl => "unknownctl"
   | .unknownType => "unknowntype" | .writer => "writer" | .unknownInspector => "unknownins"
-  | .unknownPool => "unknownpool" | .userFail => "userfail" | .unsupported => "unsupported" | .outOfFuel => "outoffuel" | .incDepth => "incdepth"
+  | .unknownPool => "unknownpool" | .userFail => "userfail" | .unsupported => "unsupported" | .outOfFuel => "outoffuel" | .incDepth => "incdepth" | .parse => "parse"
 
 def evStr : Event → String
   | .deferReg t => s!"reg{t}" | .deferRan t => s!"ran{t}" | .acquire t => s!"acq{t}" | .release t => s!"rel{t}"
